@@ -107,18 +107,20 @@ structure PfAcc where
 def setKey {κ : Type} [BEq κ] (l : List (κ × Int)) (k : κ) (v : Int) : List (κ × Int) :=
   (k, v) :: l.filter (fun p => !(p.1 == k))
 
-def pfStep (p : Int) (a : PfAcc) (e : Event) : PfAcc :=
-  let t := e.time - p
+/-- the scan over the events before the point (taken in time order): meta and SysEx events move to tick 0, the latest controller
+    values and programs are remembered per channel, everything else before the point is dropped -/
+def pfStep (a : PfAcc) (e : Event) : PfAcc :=
   match e.kind with
-  | .metaEv | .sysex => { a with out := { e with time := if t < 0 then 0 else t } :: a.out }
-  | .noteOn => if t < 0 then a else { a with out := { e with time := t } :: a.out }
-  | .voice =>
-    if t < 0 then (if 0 ≤ e.ch ∧ e.ch < 16 then { a with voice := setKey a.voice e.ch.toNat e.v1 } else a)
-    else { a with out := { e with time := t } :: a.out }
-  | .cc =>
-    if t < 0 then (if 0 ≤ e.v1 ∧ e.v1 < 128 ∧ 0 ≤ e.ch ∧ e.ch < 16 then { a with cc := setKey a.cc (e.ch.toNat, e.v1.toNat) e.v2 } else a)
-    else { a with out := { e with time := t } :: a.out }
+  | .metaEv | .sysex => { a with out := { e with time := 0 } :: a.out }
+  | .voice => if 0 ≤ e.ch ∧ e.ch < 16 then { a with voice := setKey a.voice e.ch.toNat e.v1 } else a
+  | .cc => if 0 ≤ e.v1 ∧ e.v1 < 128 ∧ 0 ≤ e.ch ∧ e.ch < 16 then { a with cc := setKey a.cc (e.ch.toNat, e.v1.toNat) e.v2 } else a
   | _ => a
+
+/-- an event at or after the point: shifted, or dropped when `play_from` does not carry its kind over -/
+def pfKeep (p : Int) (e : Event) : Option Event :=
+  match e.kind with
+  | .metaEv | .sysex | .noteOn | .voice | .cc => some { e with time := e.time - p }
+  | _ => none
 
 def ccEvent (ch : Int) (no : Nat) (v : Int) : Event := ⟨.cc, 0, ch, no, v, 0, []⟩
 def voiceEvent (ch : Int) (v : Int) : Event := ⟨.voice, 0, ch, v, 0, 0, []⟩
@@ -135,13 +137,16 @@ def restoreCh (a : PfAcc) (ch : Nat) : List Event :=
 
 def restoreAll (a : PfAcc) : List Event := ((List.range 16).map (restoreCh a)).flatten
 
-/-- the scan of `Track::play_from`: the events are first put in time order (stable), so the values remembered for a channel are
-    the latest in time before the point -/
-def pfAcc (p : Int) (es : List Event) : PfAcc := (sortByTime es).foldl (pfStep p) ⟨[], [], []⟩
+/-- the events before the point, in time order (stable: issue order within a tick) -/
+def pfBefore (p : Int) (es : List Event) : List Event := sortByTime (es.filter (fun e => decide (e.time < p)))
 
-/-- `Track::play_from` (values restored ahead of the remaining events) -/
+/-- the scan of `Track::play_from` over the events before the point -/
+def pfAcc (p : Int) (es : List Event) : PfAcc := (pfBefore p es).foldl pfStep ⟨[], [], []⟩
+
+/-- `Track::play_from`: the values in force at the point, the meta/SysEx events from before it (at tick 0, in time order), then the
+    events at or after the point in the order they were issued -/
 def playFrom (p : Int) (es : List Event) : List Event :=
-  restoreAll (pfAcc p es) ++ (pfAcc p es).out.reverse
+  restoreAll (pfAcc p es) ++ (pfAcc p es).out.reverse ++ (es.filter (fun e => decide (¬ e.time < p))).filterMap (pfKeep p)
 
 /-- the bodies `generate` writes, in track order: play_from (when set), normalise, sort, encode -/
 def songBodies (playfrom : Int) (tracks : List (List Event)) : List (List Nat) :=
